@@ -27,15 +27,16 @@ package types
 
 //@ func (sh *SignedHeader) ValidateBasic() (err)
 //@   property C01 C03
-//@   observe prov := call signatureProvider
-//@   observe dprov := call DefaultSignaturePayloadProvider
-//@   observe ka := call KeyAddress
 //@   ensures [basic] err == nil ==> (len(sh.ProposerAddress) > 0 && len(sh.Signature) > 0
 //@                       && val(sh.ProposerAddress) == val(sh.Signer.Address) && SigOK(sh) && sh.Signer.PubKey != nil)
 //@   ensures [key-is-address] err == nil ==> AddrOf(pkraw(sh.Signer.PubKey.val)) == val(sh.ProposerAddress)
-//@   ensures [complete] len(sh.ProposerAddress) > 0 && len(sh.Signature) > 0 && val(sh.ProposerAddress) == val(sh.Signer.Address) && SigOK(sh)
+// completeness (so that a node never rejects a well-formed block of its own): modulo a failing
+// payload provider or an unusable key object
+//@   ensures [complete] BasicOK(sh) ==> err == nil
+
+//@ pred BasicOK(sh) := len(sh.ProposerAddress) > 0 && len(sh.Signature) > 0 && val(sh.ProposerAddress) == val(sh.Signer.Address) && SigOK(sh)
 //@                       && sh.Signer.PubKey != nil && AddrOf(pkraw(sh.Signer.PubKey.val)) == val(sh.Signer.Address)
-//@                       ==> err == nil || (prov && prov.res1 != nil) || (dprov && dprov.res1 != nil) || (ka && ka.res0 == nil)
+//@                       && ProviderOK(HdrOf(sh)) && RawOK(sh.Signer.PubKey.val)
 
 //@ pred DataMatchesHeader(header, data) := (data.Metadata != nil ==> (header.BaseHeader.ChainID == data.Metadata.ChainID
 //@                       && header.BaseHeader.Height == data.Metadata.Height && TimeOfU64(header.BaseHeader.Time) == TimeOfU64(data.Metadata.Time)))
@@ -63,6 +64,7 @@ package types
 //@   property C03 C19
 //@   requires [non-nil] pubKey != nil
 //@   ensures [address] r != nil ==> val(r) == AddrOf(pkraw(pubKey.val)) && len(r) == 32
+//@   ensures [total-on-good-keys] RawOK(pubKey.val) ==> r != nil
 
 // Genuine(sh, addr): signed under the key whose address is addr
 //@ pred GenuineHeader(sh, addr) := SigOK(sh) && AddrOf(pkraw(sh.Signer.PubKey.val)) == addr && val(sh.ProposerAddress) == addr
@@ -81,3 +83,21 @@ package types
 //@   ensures [p2p-verify] err == nil ==> val(untrstH.ProposerAddress) == val(sh.ProposerAddress)
 //@   ensures [p2p-verify-adjacent] err == nil && U64Inc2(sh.BaseHeader.Height) == untrstH.BaseHeader.Height ==> val(untrstH.LastHeaderHash) == HashHdr(HdrOf(sh))
 //@ pred U64Inc2(x) := ite(x + 1 < 18446744073709551616, x + 1, 0)
+
+// ---- C09 / C16: retrieval helper -------------------------------------------------------------
+
+//@ func RetrieveWithHelpers(ctx, da, logger, dataLayerHeight, namespace) (res)
+//@   property C09 C16
+//@   observe gi := call GetIDs@1
+//@   observe get := call Get
+//@   ensures [height] res.Height == dataLayerHeight
+//@   ensures [ids-error-not-found] gi.res1 != nil && msgHas(gi.res1, coreda.ErrBlobNotFound) ==> res.Code == coreda.StatusNotFound
+//@   ensures [ids-error-future] gi.res1 != nil && !msgHas(gi.res1, coreda.ErrBlobNotFound) && msgHas(gi.res1, coreda.ErrHeightFromFuture) ==> res.Code == coreda.StatusHeightFromFuture
+//@   ensures [ids-error-other] gi.res1 != nil && !msgHas(gi.res1, coreda.ErrBlobNotFound) && !msgHas(gi.res1, coreda.ErrHeightFromFuture) ==> res.Code == coreda.StatusError
+//@   ensures [no-ids] gi.res1 == nil && (gi.res0 == nil || len(gi.res0.IDs) == 0) ==> res.Code == coreda.StatusNotFound
+//@   ensures [success-needs-ids] res.Code == coreda.StatusSuccess ==> gi.res1 == nil && gi.res0 != nil && len(gi.res0.IDs) > 0 && res.IDs == gi.res0.IDs
+//@   ensures [get-error] get && get.res1 != nil ==> res.Code == coreda.StatusError && len(res.Data) == 0
+//@   ensures [no-data-unless-success] res.Code != coreda.StatusSuccess ==> len(res.Data) == 0
+//@   loop 1 invariant [step] i >= 0 && i % 100 == 0 && idsResult != nil && i <= len(idsResult.IDs) + 99
+//@   loop 1 invariant [chunk] get.count == 1 ==> get.arg2 == idsResult.IDs[iter(i):min(iter(i) + 100, len(idsResult.IDs))] && i == iter(i) + 100 && get.res1 == nil
+//@   loop 1 invariant [one-get] get.count <= 1
